@@ -43,8 +43,8 @@
 //         ()                           : Default
 //         Option<T>, Vec<T>, HashMap<K,V>, HashSet<T> : Default   (for any T)
 //         serde_json::Value            : FromStr, Display, Default
-//   P2  a native type claims exactly the impls it was registered with
-//   P3  a struct / enum / newtype claims Default iff it carries a default value
+//   P2  a native type claims only impls it was registered with
+//   P3  a struct / enum / newtype claims Default only if it carries a default value
 //   P4  an enum claims FromStr only if its bespoke impl markers make output_enum emit one
 //       (AllSimpleVariants or UntaggedFromStr), Display only if AllSimpleVariants or
 //       UntaggedDisplay -- the markers are the other of the two cooperating sites (emission in
@@ -151,9 +151,11 @@ stubs! {
             TypeSpaceImpl::Display => reg_display,
             TypeSpaceImpl::Default => false,
         };
+        // the property's direction only: a claim implies the impl (a more conservative
+        // has_impl would still satisfy C17)
         kani::assert(
-            has == registered,
-            "[C17/P2] a native type's has_impl differs from the impls it was registered with",
+            !has || registered,
+            "[C17/P2] a native type claims an impl it was not registered with",
         );
         kani::cover!(has, "[must] a registered impl is claimed");
         core::mem::forget(entry);
@@ -254,8 +256,8 @@ stubs! {
         let has = entry.has_impl(&ts, x.clone());
         match x {
             TypeSpaceImpl::Default => kani::assert(
-                has == with_default,
-                "[C17/P3] a struct claims Default without carrying a default value (or vice versa)",
+                !has || with_default,
+                "[C17/P3] a struct claims Default without carrying a default value",
             ),
             _ => kani::assert(!has, "[C17/P3] a struct claims FromStr/Display"),
         }
